@@ -15,7 +15,9 @@ For each scenario the fault-free run is recorded; then crash at every event, tor
 (thorough) one EIO at every event and, for the two main scenarios, every pair of EIOs.  After each execution:
   R1  the repository path holds the complete old tree or the complete new tree (ignoring the syncer's own
       .etag/.modified book-keeping files); with a failing response it is the old tree, byte for byte;
-  R3  a follow-up sync by a fresh syncer object with a good response completes and the path holds the new tree.
+  R2  variant "failing follow-up": a next sync whose download/unpack fails (404, truncated, bit-flipped) leaves a
+      complete old or new tree at the path (unchanged if it found a complete one);
+  R3  a (final) follow-up sync by a fresh syncer object with a good response completes and the path holds the new tree.
 """
 
 import hashlib
@@ -36,7 +38,8 @@ RULE = (
     "HTTP 404, HTTP 304, unchanged ETag}; every mutating event of the fault-free run (download temp file, staging "
     "directories, each member of the unpack, the two renames, .etag/.modified) is a crash point (plus a crash right after every rename/symlink), every open-for-write a "
     "torn write, thorough adds single EIOs everywhere and EIO pairs for the two good-bz2 scenarios. One evaluation = "
-    "one faulted sync from a fresh copy of the pre-state + tree snapshot + follow-up sync + tree snapshot. A class is "
+    "one faulted sync from a fresh copy of the pre-state + tree snapshot + follow-up variant (good; after an interruption "
+    "also failing-then-good: 404 everywhere, truncated and bit-flipped too for the two good-bz2 scenarios) + snapshots. A class is "
     "(response class, fault kind, kind of audited call at a crash, tree state after the fault, outcome of the follow-up sync)."
 )
 ASSUMPTIONS = [
@@ -49,7 +52,8 @@ ASSUMPTIONS = [
     "state' like an absent one",
     "Excl: two syncs in one process without an interruption in between (the second is refused while the first's staging "
     "directories await atexit; the tree stays intact, which the statement allows)",
-    "Excl: a follow-up sync that itself receives a bad response",
+    "a follow-up sync that itself receives a failing response (404 / truncated / bit-flipped) is part of the sweep after "
+    "every interruption: it must leave the tree it found (or restore the parked one), and a final good sync must complete",
     "Excl (thorough EIO pairs): EIO on the second rename *and* on the roll-back rename its handler performs; the old "
     "tree then sits in .<name>.old and the atexit clean-up deletes it -- two consecutive I/O failures, one inside the "
     "recovery action, which the statement does not speak about (reported to the coordinator as a possible finding)",
@@ -528,20 +532,21 @@ class Fixture:
             msgs.append(f"uninterrupted sync of a good tarball left state {state}")
         return msgs
 
-    def execute(self, plan, real_tar=False):
+    def execute(self, plan, real_tar=False, followup="good"):
         """_execute with late clean-up noise (AtomicWriteFile.__del__ hitting an injected or vanished path) kept off stderr."""
         old = sys.unraisablehook
         sys.unraisablehook = lambda u: None if isinstance(u.exc_value, OSError) else old(u)
         try:
             try:
-                return self._execute(plan, real_tar=real_tar)
+                return self._execute(plan, real_tar=real_tar, followup=followup)
             finally:
                 gc.collect()
         finally:
             sys.unraisablehook = old
 
-    def _execute(self, plan, real_tar=False):
-        """Returns (status, state after fault, follow-up outcome, messages)."""
+    def _execute(self, plan, real_tar=False, followup="good"):
+        """Returns (status, state after fault, follow-up outcome, messages).  self.problems lists which requirement each
+        message belongs to ("instant": tree right after the fault; "failing-follow-up"; "follow-up")."""
         self.reset()
         fn = self._sync_callable(self.ext, self.body, self.headers, self.http_error, real_tar=real_tar)
         status, _val = self.inj.run(fn, plan)
@@ -553,7 +558,28 @@ class Fixture:
         self._finish_process(crashed)
         state, full = self.tree_state()
         msgs = self.judge_tree(state, full, fired)
-        # follow-up sync: a new process, a new syncer object, a good response, no faults
+        self.problems = ["instant"] * len(msgs)
+        if followup != "good":
+            # first a follow-up sync whose download or unpack fails: it must leave a complete tree where it found one,
+            # and must not finish off a tree that the interruption left parked
+            ext, body, headers, http_error = _response(followup)
+            self.atexit = _AtExit()
+            stf, valf, _ev = self.inj.record(self._sync_callable(ext, body, headers, http_error))
+            del valf
+            gc.collect()
+            self._finish_process(crashed=False)
+            statef, fullf = self.tree_state()
+            complete = lambda st: st == "new" or st.startswith("old")  # noqa: E731
+            problem = None
+            if not complete(statef):
+                what = "does not exist" if statef == "absent" else f"holds neither tree ({_diff(_strip(fullf), self.old or {})})"
+                problem = f"after the interruption and a follow-up sync with a failing response ({followup}) the repository path {what}"
+            elif complete(state) and (full or {}) != (fullf or {}):
+                problem = f"follow-up sync with a failing response ({followup}) changed the tree it found ({state} -> {statef}): {_diff(fullf or {}, full or {})}"
+            if problem:
+                msgs.append(problem)
+                self.problems.append("failing-follow-up")
+        # (final) follow-up sync: a new process, a new syncer object, a good response, no faults
         self.atexit = _AtExit()
         fn2 = self._sync_callable(self.good_ext, self.good_body, self.good_headers, None)
         st2, val2, _ev = self.inj.record(fn2)
@@ -570,6 +596,7 @@ class Fixture:
         leftovers = sorted(n for n in os.listdir(self.repos) if n != "r")
         if follow == "follow-up-ok" and leftovers:
             msgs.append(f"staging directories left after a completed follow-up sync and normal exit: {leftovers}")
+        self.problems += ["follow-up"] * (len(msgs) - len(self.problems))
         return status, state, follow, msgs
 
 
@@ -617,7 +644,20 @@ def _plans(fx, tier, mode):
     return [("errors", [a, b], errno.EIO) for a in range(n) for b in range(a + 1, n) if not (a in swap and b == a + 1)]
 
 
-def run_plan(fx, plan):
+FAILING = ("http-404", "truncated", "bitflip")
+
+
+def followups(fx, plan, tier):
+    """good always; after an interruption (thorough: also after a reported EIO) additionally a failing follow-up."""
+    kinds = ("crash", "crash_after", "torn") + (("error",) if tier == "thorough" else ())
+    if plan[0] not in kinds:
+        return ["good"]
+    if (fx.prev, fx.resp) in PAIR_SCENARIOS:
+        return ["good", *FAILING]
+    return ["good", "http-404"]
+
+
+def run_plan(fx, plan, followup="good"):
     if plan[0] == "real-tar":
         status, state, follow, msgs = fx.execute(None, real_tar=True)
         if fx.first_tar_calls == 0 and fx.expect_new and status == "ok":
@@ -625,7 +665,7 @@ def run_plan(fx, plan):
         return status, state, follow, msgs
     if plan[0] == "errors":
         plan = ("errors", frozenset(plan[1]), plan[2])
-    return fx.execute(tuple(plan))
+    return fx.execute(tuple(plan), followup=followup)
 
 
 def work(task):
@@ -638,11 +678,15 @@ def work(task):
     post = set()
     try:
         plans = _plans(fx, tier, mode)
-        for i, plan in enumerate(plans):
-            if i % nshards != shard:
-                continue
+        todo = [
+            (plan, followup)
+            for i, plan in enumerate(plans)
+            if i % nshards == shard
+            for followup in (followups(fx, plan, tier) if mode == "single" else ["good"])
+        ]
+        for plan, followup in todo:
             evals += 1
-            status, state, follow, msgs = run_plan(fx, plan)
+            status, state, follow, msgs = run_plan(fx, plan, followup)
             if plan[0] == "real-tar":
                 at = "real-tar"
             elif plan[0] == "errors":
@@ -657,7 +701,7 @@ def work(task):
             else:
                 what = plan[0]
             st_class = "old" if state.startswith("old") else state  # old / old-absent / old-empty-dir
-            key = f"{rclass}:{what}:{st_class}:{follow}"
+            key = f"{rclass}:{what}:{st_class}:{'then-failing-sync:' if followup != 'good' else ''}{follow}"
             classes[key] = classes.get(key, 0) + 1
             post.add((state, follow))
             if msgs:
@@ -670,6 +714,8 @@ def work(task):
                         "at": at,
                         "state": state,
                         "follow": follow,
+                        "followup": followup,
+                        "problems": sorted(set(fx.problems)),
                         "msg": f"{prev}/{resp}: {plan[0]} at {plan[1] if len(plan) > 1 else ''} of {len(fx.events)} ({at}): " + "; ".join(msgs),
                     }
                 )
@@ -697,7 +743,7 @@ def replay(case):
         if len(fx.events) != case["n_events"]:
             raise RuntimeError(f"fault-free run has {len(fx.events)} events, case recorded {case['n_events']}")
         plan = case["plan"]
-        _status, _state, _follow, msgs = run_plan(fx, plan)
+        _status, _state, _follow, msgs = run_plan(fx, plan, case.get("followup", "good"))
         return msgs
     finally:
         fx.close()
@@ -722,6 +768,8 @@ def _rename_window(case):
     """Between rename(repo -> .repo.old) and rename(.repo.update -> repo) the repository path does not exist."""
     if not (case.get("prev") == "present" and case.get("state") == "absent"):
         return False
+    if case.get("problems", ["instant"]) != ["instant"]:
+        return False  # something besides the instant itself went wrong (e.g. a later failing sync lost the parked tree)
     at, kind = case.get("at", ""), case.get("plan", [""])[0]
     if kind == "crash_after":
         return at.startswith("os.rename /repos/r")  # died right after the first rename
